@@ -332,3 +332,69 @@ func (l Lin) hasAcc() bool {
 	})
 	return found
 }
+
+// renameID replaces the index variable `from` by `to` everywhere in l (free occurrences).
+func renameID(l Lin, from, to int) Lin {
+	rp := func(p Path) Path {
+		q := make(Path, len(p))
+		copy(q, p)
+		for i := range q {
+			if q[i].ID == from {
+				q[i].ID = to
+			}
+		}
+		return q
+	}
+	r := Const(l.C)
+	for _, k := range l.sorted() {
+		t := l.T[k]
+		var a Atom
+		switch x := t.A.(type) {
+		case LenOf:
+			a = LenOf{rp(x.P)}
+		case FieldVal:
+			a = FieldVal{rp(x.P), x.Unsigned}
+		case Idx:
+			if x.ID == from {
+				a = Idx{to}
+			} else {
+				a = x
+			}
+		case Prefix:
+			if x.ID == from {
+				a = x
+			} else {
+				a = Prefix{x.ID, renameID(x.Body, from, to)}
+			}
+		case Sum:
+			if x.ID == from {
+				a = x
+			} else {
+				a = Sum{renameID(x.Count, from, to), x.ID, renameID(x.Body, from, to)}
+			}
+		case Op:
+			args := make([]Lin, len(x.Args))
+			for i, y := range x.Args {
+				args[i] = renameID(y, from, to)
+			}
+			a = Op{x.Name, args}
+		case Ite:
+			a = Ite{x.Op, renameID(x.X, from, to), renameID(x.Y, from, to), renameID(x.Then, from, to), renameID(x.Else, from, to)}
+		case App:
+			args := make([]Arg, len(x.Args))
+			for i, y := range x.Args {
+				args[i] = y
+				if y.IsPath {
+					args[i].P = rp(y.P)
+				} else {
+					args[i].L = renameID(y.L, from, to)
+				}
+			}
+			a = App{x.Fn, x.Res, args}
+		default:
+			a = t.A
+		}
+		r = r.Add(AtomLin(a).Scale(t.K))
+	}
+	return r
+}
